@@ -18,7 +18,7 @@ LEVEL = 'exploration'
 RULE = (
     'Part files: G-truth datasets (both curves assembled, curvature set) x '
     'both parameterisations with 4-9 specific-yield knots and 2-7 '
-    'conductivity knots; the literal (non-placeholder) parameter values are '
+    'conductivity knots (a quarter of the files mix the kinds of the two sections; for those only the rise files, which concern specific yield alone, are produced); the literal (non-placeholder) parameter values are '
     'replaced by wild finite doubles incl. ones whose repr has an exponent '
     '(5e-05, 1e+16). All six files (rise|curves x tpl|ins|pst) and the four '
     'simulate outputs are produced through the CLI and read by a model of '
@@ -113,6 +113,27 @@ def file_cases(draw, tier):
         wt['zeta_max_cm'] = draw(wild_value())
         for key in ('sd', 'theta_s', 'b', 'psi_s'):
             wild['specific_yield'][key] = draw(wild_value())
+    if draw(st.integers(0, 3)) == 0:
+        # the two sections choose their kind independently; the rise files
+        # only concern specific yield (the curves files are not asked for)
+        record['mixed'] = True
+        for params, is_wild in ((record['parameters'], False), (wild, True)):
+            if kind == 'spline':
+                other = draw(gen_params.peatclsm_T())
+                other['zeta_max_cm'] = round(hi / 10 + 5.0, 3)
+                if is_wild:
+                    other['Ksmacz0'] = draw(wild_value(positive=True))
+                    other['zeta_max_cm'] = draw(wild_value())
+            else:
+                other = draw(gen_params.spline_T(min_gap=5.0, min_n=2,
+                                                 max_n=7))
+                zt = other['zeta_knots_mm']
+                other['zeta_knots_mm'] = [
+                    round(v + (hi + 20.0) - zt[-1], 4) for v in zt]
+                if is_wild:
+                    other['minimum_transmissivity_m2_d'] = draw(
+                        wild_value(positive=True))
+            params['transmissivity'] = other
     record['wild_parameters'] = wild
     record['curvature'] = draw(st.sampled_from(['0.5', '2.36', '0']))
     return record
@@ -256,18 +277,24 @@ def check_files(case):
             yaml.safe_dump(case['wild_parameters'], f)
         wild_loaded = yaml.safe_load(open(wild).read())
         files = {}
-        for what in ('rise', 'curves'):
+        whats = ('rise',) if case.get('mixed') else ('rise', 'curves')
+        if case.get('mixed'):
+            labels.add('sections-of-different-kinds')
+        for what in whats:
             for kind in ('tpl', 'ins', 'pst'):
                 files[(what, kind)] = guarded(
                     wf.pestfiles, what, wild, kind)
         rise_vec = guarded(wf.simulate, 'rise', sane, True)
         rise_tab = load_output_yaml(
             guarded(wf.simulate, 'rise', sane, False), 'rise-table')
-        rec_vec = guarded(wf.simulate, 'recession', sane, True)
-        rec_tab = load_output_yaml(
-            guarded(wf.simulate, 'recession', sane, False), 'recession-table')
+        rec_vec, rec_tab = '', [[]]
+        if 'curves' in whats:
+            rec_vec = guarded(wf.simulate, 'recession', sane, True)
+            rec_tab = load_output_yaml(
+                guarded(wf.simulate, 'recession', sane, False),
+                'recession-table')
     n_rise, n_rec = len(rise_view), len(rec_view)
-    for what in ('rise', 'curves'):
+    for what in whats:
         obs_lines = check_template(
             files[(what, 'tpl')], files[(what, 'pst')], wild_loaded, what)
         expected = [v for _, v in rise_view]
